@@ -234,6 +234,43 @@ theorem validated_batch_finalizes_partial (cap : Id → Nat) (st : State) (snap 
   have ht : s1.topo = st.topo := finalizeAll_topo h1
   simp [WriteSnapshot, atomic, writeSnapshotTxn, hd, writeSnapshotInner, h1, ht, htopo]
 
+/-! ### the node's own validation (`validateSnapshotTransaction`): two paths
+
+  The premise of C16 is what `kernelValidate` accepts. A body found in the persistent store is trusted;
+  a cached body is validated, locked and persisted. The two lemmas below are what makes "presenting a
+  refused transaction again gives the same verdict" true of the model: refusing at `Validate` never
+  persists the body, so the next presentation takes the validating path again. -/
+
+/-- a cached transaction refused by `Validate` leaves no body behind -/
+theorem refused_is_not_persisted (P : Params) (st : State) (snap : Id) (multi fin : Bool) (tx : Tx)
+    (hc : aget st.txs tx.id = none) (hv : (validate P st tx fin).1 = false) :
+    (kernelValidateTx P st snap multi fin tx).1 = some .err ∧
+    aget (kernelValidateTx P st snap multi fin tx).2.txs tx.id = none := by
+  have htx : (validate P st tx fin).2.txs = st.txs := by
+    simp only [validate]
+    split
+    · rfl
+    · rename_i st1 us h
+      exact (lockGhostKeys_frame (validateCore_locks h)).2.2.1
+  unfold kernelValidateTx
+  simp only [hc]
+  split
+  · rename_i st1 he
+    have : (validate P st tx fin).2 = st1 := by rw [he]
+    rw [← this, htx]
+    exact ⟨rfl, hc⟩
+  · rename_i st1 he
+    rw [he] at hv
+    cases hv
+
+/-- a persisted body is trusted: no validation, no state change -/
+theorem persisted_is_trusted (P : Params) (st : State) (snap : Id) (multi fin : Bool) (tx b : Tx)
+    (hb : aget st.txs tx.id = some b) : (kernelValidateTx P st snap multi fin tx).2 = st := by
+  unfold kernelValidateTx
+  simp only [hb]
+  repeat' split
+  all_goals rfl
+
 /-! ### the property is false of the code as it is: three concrete witnesses
 
   Amounts in whole units; asset 2 has capacity 2500 (Bitcoin in `GetAssetCapacity`), asset 6 is uncapped.
